@@ -106,6 +106,19 @@ impl<'a> PrettyPrinter<'a> {
         self.convert_expr_impl(ctx, expr)
     }
 
+    /// Convert an expression that is a child of `Markup` or `Math`: for code, the one directly after the hash.
+    /// There the parentheses around a number or a keyword are kept, because the text that follows could
+    /// extend that literal (`#(1)pt`, `#(1).5`, `#(none)x`).
+    pub(super) fn convert_embedded_expr(&'a self, ctx: Context, expr: Expr<'a>) -> ArenaDoc<'a> {
+        let Expr::Parenthesized(p) = expr else {
+            return self.convert_expr(ctx, expr);
+        };
+        if let Some(res) = self.check_disabled(expr.to_untyped()) {
+            return res;
+        }
+        self.convert_parenthesized(ctx, p, true)
+    }
+
     fn convert_expr_impl(&'a self, ctx: Context, expr: Expr<'a>) -> ArenaDoc<'a> {
         match expr {
             Expr::Text(t) => self.convert_text(t),
@@ -146,7 +159,7 @@ impl<'a> PrettyPrinter<'a> {
             Expr::Str(s) => self.convert_trivia(s),
             Expr::Code(c) => self.convert_code_block(ctx, c),
             Expr::Content(c) => self.convert_content_block(ctx, c),
-            Expr::Parenthesized(p) => self.convert_parenthesized(ctx, p),
+            Expr::Parenthesized(p) => self.convert_parenthesized(ctx, p, false),
             Expr::Array(a) => self.convert_array(ctx, a),
             Expr::Dict(d) => self.convert_dict(ctx, d),
             Expr::Unary(u) => self.convert_unary(ctx, u),
